@@ -18,7 +18,7 @@ MENU = [(0, 10), (-10, 10), (0, 0), (-10, 0), (0, INF), (-INF, INF), (0, 1000)]
 def params(tier):
     if tier == "quick":
         return dict(nm=3, nr=3, K=(-1, 0, 1), d=1, menu=MENU[:5])
-    return dict(nm=3, nr=4, K=(-1, 0, 1), d=2, menu=MENU)
+    return dict(nm=3, nr=4, K=(-1, 0, 1), d=1, menu=MENU + [(0, 1), (-1, 1)])
 
 
 def true_blocked(mets, rxns):
